@@ -135,6 +135,8 @@ def compile_predicate(rules, predicate, user_flags=None):
     return None, None, None, Outcome('diagnostic', stage='compile', exc_type=type(e).__name__, message=_msg(e), exc=e)
   except RecursionError as e:
     return None, None, None, Outcome('internal', stage='compile', exc_type='RecursionError', message=str(e)[:200], tb='')
+  except MemoryError:
+    return None, None, None, Outcome('capped', stage='compile', message='MemoryError under the address-space limit (case discarded)')
   except Exception as e:
     return None, None, None, Outcome('internal', stage='compile', exc_type=type(e).__name__, message=str(e)[:500],
                                      tb=traceback.format_exc()[-3000:], exc=e)
@@ -246,6 +248,8 @@ def run_workflow(text, predicates, rules=None, user_flags=None, probe=None, impo
     return out, trace, executions
   except m['diagnostics'] as e:
     return None, trace, Outcome('diagnostic', stage='compile', exc_type=type(e).__name__, message=_msg(e), exc=e)
+  except MemoryError:
+    return None, trace, Outcome('capped', stage='workflow', message='MemoryError under the address-space limit (case discarded)')
   except Exception as e:
     if 'ticks' in locals() and ticks[0] > SQL_TICK_LIMIT * 4:
       return None, trace, Outcome('capped', stage='execute', message='workflow exceeded the step budget')
